@@ -46,7 +46,14 @@ def main(argv):
     ctx.prepare_lean()
     import_repo()
     from pymemcache.client.hash import HashClient
-    from pymemcache.client.murmur3 import murmur3_32
+    from pymemcache.client.murmur3 import murmur3_32 as _impl_murmur
+    HASHED = {}
+
+    def murmur3_32(text, seed=0):
+        """the implementation's hash, remembered: every string the placement rule was evaluated on is compared with the Lean model of MurmurHash3 at the end"""
+        v = _impl_murmur(text, seed)
+        HASHED[text] = v
+        return v
     rng = ctx.rng
     ctx.rule = ("server sets of 1..5 servers (TCP tuples/strings and UNIX paths) x key sets of size 0..50 (str, bytes, (server_key, key) pairs) x prefixes x use_pooling "
                 "x every key-addressed operation; non-trivial = distinct (servers, prefix, pooling, key set)")
@@ -59,13 +66,14 @@ def main(argv):
             for pooling in (False, True):
                 for rep in range(30 if ctx.thorough else 6):
                     S = Scripted(rng)
+                    au = rep % 2 == 0          # text keys outside ASCII are legal with allow_unicode_keys: routed by the text as given
                     if rep % 3 == 2 and len(servers) > 1:
                         # the same server set reached by growing the client: built with the first server only, the others added one by one
-                        hc = HashClient(servers[:1], socket_module=S.sm, key_prefix=pfx, use_pooling=pooling, default_noreply=False, retry_attempts=0, dead_timeout=0)
+                        hc = HashClient(servers[:1], socket_module=S.sm, key_prefix=pfx, use_pooling=pooling, default_noreply=False, retry_attempts=0, dead_timeout=0, allow_unicode_keys=au)
                         for extra_ in servers[1:]:
                             hc.add_server(extra_)
                     else:
-                        hc = HashClient(servers, socket_module=S.sm, key_prefix=pfx, use_pooling=pooling, default_noreply=False, retry_attempts=0, dead_timeout=0)
+                        hc = HashClient(servers, socket_module=S.sm, key_prefix=pfx, use_pooling=pooling, default_noreply=False, retry_attempts=0, dead_timeout=0, allow_unicode_keys=au)
                     if rep % 3 == 1:
                         # an attempt to add a server that cannot be built (a malformed address: whatever this tree refuses) fails and leaves the server set as it was
                         for bad_spec in ("10.0.0.9:", "cache.example:port", ["h:", "h9:11x"][(rep // 3) % 2]):
@@ -100,6 +108,10 @@ def main(argv):
                     if n >= 2:
                         # short plain keys: a two-character key is a key, not a (server_key, key) pair
                         keys += ["ab", b"cd", "x" + "abcdefgh"[rep % 8], b"q", "zz%d" % (rep % 10)][: 2 + rep % 4]
+                    if n >= 2 and au:
+                        # Cyrillic / CJK / astral text, and text with two Unicode spellings (composed and decomposed): each is its own key and its own routing key
+                        keys += ["\u043a\u043b\u044e\u0447%d" % rep, "\u952e%d" % rep, "caf\u00e9%d" % rep, "cafe\u0301%d" % rep, ("r\u00e9gion\u4e2d%d" % (rep % 3), "pk\u00e9%d" % rep),
+                                 ("re\u0301gion", "A\u030a%d" % rep), "\U0001f600k%d" % rep, "\u212b%d" % rep][: 4 + rep % 5]
                     if n >= 2 and empty_route_ok and rep % 2 == 0:
                         # pairs whose explicit server key is empty: they all live on one server, whatever their inner keys are
                         keys += [("", "ea%d" % rep), ("", "eb%d" % rep), ("", "ec"), ("", "key0x")]
@@ -439,5 +451,15 @@ def main(argv):
                 ctx.disagreement("Lean batching model differs from the per-server command logs of get_many", dict(case, impl={k: [hx(x) for x in v] for k, v in real.items()},
                                                                                                             model={k: [hx(x) for x in v] for k, v in model_w.items()}),
                                  theorem="C12_batches_partition_keys")
+    # the hash the expectation was computed with, against the Lean model of MurmurHash3 (C14_murmurPy_eq_ref) on every string it was applied to
+    if ctx.driver.available and ctx.lean.build_ok and HASHED:
+        items_ = sorted(HASHED.items())
+        outs_ = ctx.driver.batch(["murmur 0 " + " ".join(str(ord(ch_)) for ch_ in t_) for t_, _ in items_])
+        ctx.count("routing strings whose hash was compared with the Lean model", len(items_))
+        for (t_, v_), o_ in zip(items_, outs_):
+            if o_ != f"ok {v_}":
+                ctx.violation("the score the placement rule is computed from differs from MurmurHash3 of '<node>-<key>' (Lean model) for a routing string",
+                              {"string": repr(t_), "implementation": v_, "model": o_}, tags=["hash"])
+                break
     ctx.assumptions = ["servers are faithful memcached instances (C05)", "placement rule is C11's; here it is recomputed independently with murmur3_32 (C14)"]
     ctx.finish()
